@@ -429,6 +429,46 @@ H_UN(bintCopy, i, 1)   H_UN(bintCopy, s, 0)
  * plus the tagged-pointer dereferences made symbolic execution alone take > 150 s and the solver run out of
  * memory.)  Operands are in operand form (BS_WF_OP), which includes every canonical number.
  *   SG 0: a >= 0, b >= 0    SG 1: a < 0, b >= 0    SG 2: a >= 0, b < 0    SG 3: a < 0, b < 0 */
+#ifdef C11_MODEL_ADDSUB
+/* MODULAR (assume-guarantee over the recursion): the DEFINITIONS of bintPlus and bintMinus are renamed on every run
+ * (tools/vlib.py splice "_rename_def") to bintPlus__real / bintMinus__real; the harness calls those, and the calls
+ * they make to bintPlus / bintMinus bind to these models of the very contract the harness checks:
+ *   precondition  (obligation of the caller)  operands in operand form, <= 3 digits, BOTH NON-NEGATIVE -- the latter is
+ *                 the decreases clause: every re-entry is in sign case 0, which makes no re-entry;
+ *   postcondition (all the caller may rely on) a fresh canonical number of value a+b resp. a-b, any capacity;
+ *                 operands unchanged. */
+static BInt m_addsub_result(bs_v v)
+{
+	bs_u m = BS_ABS(v);
+	BIntS d[4]; Length pc, pa; int i;
+	if (v >= (bs_v) BS_IMM_MIN && v <= (bs_v) BS_IMM_MAX) return BS_MKIMM((long) v);
+	for (i = 0; i < 4; i++) d[i] = (BIntS) (m >> (32 * i));
+	pc = (m >> 96) ? 4 : (m >> 64) ? 3 : (m >> 32) ? 2 : 1;
+	{ INPUT(Length, m_pa); pa = m_pa; }
+	ASSUME(pa >= pc && pa <= 4);
+	return mk_stored(v < 0, pa, pc, d, 4);
+}
+#define M_ADDSUB(fn, OP) \
+BInt fn(BInt a, BInt b) \
+{ \
+	CHECK("re-entry of " #fn ": inside the precondition (operand form, <= 3 digits)", \
+	      (BS_IS_IMM(a) || a->placec <= a->placea) && (BS_IS_IMM(b) || b->placec <= b->placea) && PRE_bint2(a, b)); \
+	CHECK("re-entry of " #fn ": both operands non-negative (decreases: sign case 0 makes no re-entry)", BS_V(a) >= 0 && BS_V(b) >= 0); \
+	return m_addsub_result(BS_V(a) OP BS_V(b)); \
+}
+M_ADDSUB(bintPlus, +)
+M_ADDSUB(bintMinus, -)
+#define bintPlus_UNDER_TEST  bintPlus__real
+#define bintMinus_UNDER_TEST bintMinus__real
+#else
+#define bintPlus_UNDER_TEST  bintPlus
+#define bintMinus_UNDER_TEST bintMinus
+#endif
+#ifdef C11_CANARY_ONE_DIGIT	/* canaries only: one-digit operands are enough to refute a wrong postcondition, and cheap */
+#define ADDSUB_CANARY_BOUND(a, b) ((BS_IS_IMM(a) || (a)->placec <= 1) && (BS_IS_IMM(b) || (b)->placec <= 1))
+#else
+#define ADDSUB_CANARY_BOUND(a, b) 1
+#endif
 #define SIGN_CASE(SG, va, vb) \
 	((SG) == 0 ? ((va) >= 0 && (vb) >= 0) : (SG) == 1 ? ((va) < 0 && (vb) >= 0) : \
 	 (SG) == 2 ? ((va) >= 0 && (vb) < 0) : ((va) < 0 && (vb) < 0))
@@ -442,7 +482,8 @@ void h_##fn##_##sfx##_sg##SG(void) \
 	ASSUME(PRE_bint2(a, b)); \
 	bs_v va = BS_V(a), vb = BS_V(b); \
 	ASSUME(SIGN_CASE(SG, va, vb)); \
-	BInt r = fn(a, b); \
+	ASSUME(ADDSUB_CANARY_BOUND(a, b)); \
+	BInt r = fn##_UNDER_TEST(a, b); \
 	CHECK(#fn ": exact and canonical", POST_##fn(va, vb, r)); \
 	CHECK(#fn ": operands unchanged", BS_V(a) == va && BS_V(b) == vb); \
 	CHECK(#fn ": no digit stored beyond the capacity", SLACK_OK(r) && ((KA) || SLACK_OK(a)) && ((KB) || SLACK_OK(b))); \
@@ -504,12 +545,21 @@ void iintShift(BInt r, BInt b, int n)
 #ifndef BINTSHIFT_RESULT_BITS
 #define BINTSHIFT_RESULT_BITS 127	/* -DBINTSHIFT_RESULT_BITS=65: results around the immediate/stored boundary only (quick tier) */
 #endif
+#ifndef BINTSHIFT_RESULT_MINBITS
+#define BINTSHIFT_RESULT_MINBITS 0	/* -DBINTSHIFT_RESULT_MINBITS=m: only results of at least m bits */
+#endif
+#ifdef BINTSHIFT_N			/* -DBINTSHIFT_N=k: the shift count is the constant k (one job per count) */
+#define BINTSHIFT_N_DECL int n = (BINTSHIFT_N)
+#else
+#define BINTSHIFT_N_DECL INPUT(int, n)
+#endif
 #define BODY_bintShift(K) \
 { \
 	INPUT(BIntS, sent); g_sent = sent; \
-	IN_BINT_K(b, K); INPUT(int, n); \
+	IN_BINT_K(b, K); BINTSHIFT_N_DECL; \
 	INIT_STATICS(); \
 	CANON3(b); \
+	ASSUME(BS_SHIFTED(BS_ABS(BS_V(b)), n) >= (((bs_u) 1) << BINTSHIFT_RESULT_MINBITS >> 1)); \
 	/* bound: the result has at most 4 digits (127 bits) */ \
 	ASSUME(n > -200 && n < 128 && (n <= 0 || (BS_SHIFTED(BS_ABS(BS_V(b)), n) >> n) == BS_ABS(BS_V(b))) && \
 	       BS_SHIFTED(BS_ABS(BS_V(b)), n) < (((bs_u) 1) << BINTSHIFT_RESULT_BITS)); \
